@@ -198,7 +198,9 @@ def execute(sc, sim):
                "lex_in_grammar", "cli_path", "own_reader_reread", "grammar_cmd_from_rcg",
                "lopar_refuses_non_cf", "lopar_start_2plus_symbols", "second_hash_seed",
                "shared_linearization_sequence", "other_platform_refused",
-               "grammar_grows_between_two_lopar_writes", "grown_grammar_no_longer_context_free")
+               "grammar_grows_between_two_lopar_writes", "grown_grammar_no_longer_context_free",
+               "own_reader_after_reading_another_grammar",
+               "other_format_written_to_same_prefix")
     viols = []
     fmt, enc = sc["fmt"], sc["enc"]
     tb = sc["tb"]
@@ -303,6 +305,25 @@ def execute(sc, sim):
             v["detail"]["first"] = [sc["fmt"], sc["opts"]]
             v["detail"]["second"] = [sw["fmt"], sw["opts"]]
             return done(sc, st, [v])
+    # ---- another format set written to the same prefix afterwards: the first set stays valid
+    sw = sc.get("second_write")
+    if sw and sc["path"] == "api" and not sc.get("prior") and sw["fmt"] != fmt \
+            and "lex_in_grammar" not in sc["opts"] and sw["opts"]:
+        st.probe("other_format_written_to_same_prefix")
+        st.fault("history")
+        ops = api_ops(dict(sc, second_write=None))
+        ops.append(["gwrite", sw["fmt"], "b" if sc["mode"] is not None else "g", OUT, sc["enc"],
+                    sw["opts"]])
+        obss = sim.run(dict(base, sessions=[{"id": "s", "ops": ops}]))
+        st.add_obs(obss)
+        if not obss.get("hang") and not any("exc" in r for r in obss["sessions"]["s"]):
+            mine = dict((p, d) for p, d in obss["files"].items()
+                        if p in [OUT + e for e in FILES[fmt]])
+            v = judge_files(sc, {"files": mine, "writelog": [], "unclosed_at_return": []},
+                            memflat, memlex, st, tag="after-other-format", history=False)
+            if v:
+                v["sig"] = v["sig"].replace("C09/", "C09/after-other-format-to-same-prefix/")
+                return done(sc, st, [v])
     # ---- the written grammar grows and is written again (LoPar: the refusal must follow)
     if sc.get("grow") and fmt == "lopar" and sc["path"] == "api" and mem_cf:
         st.probe("grammar_grows_between_two_lopar_writes")
@@ -361,7 +382,17 @@ def execute(sc, sim):
             keep = dict((p, d[:-1] if d.endswith(b"\n") else d) for p, d in keep.items())
             st.probe("reread_without_final_newline")
         st.probe("own_reader_reread")
-        obs3 = sim.run(dict(base, files=keep, sessions=[{"id": "r", "ops": [
+        pre = []
+        if sc.get("extra") and sc["io_seed"] % 2 == 0:
+            # the reading process has read another grammar before (written by itself)
+            st.probe("own_reader_after_reading_another_grammar")
+            st.fault("history")
+            pre = [["gnew", "q"]]
+            for j, x in enumerate(sc["extra"]):
+                pre += [["build", "t", x, 5 + j], ["extract", "t", "q"]]
+            pre += [["gwrite", "rcg", "q", "/sim/w/prior/q", "utf-8", {}],
+                    ["gread", "rcg", "q2", "/sim/w/prior/q", "utf-8", {}], ["gdump", "q2"]]
+        obs3 = sim.run(dict(base, files=keep, sessions=[{"id": "r", "ops": pre + [
             ["gread", "rcg", "r", OUT, enc, {}], ["gdump", "r"]]}]))
         st.add_obs(obs3)
         r3 = obs3["sessions"]["r"]
